@@ -1,0 +1,20 @@
+//go:build verif
+
+package common
+
+// VerifC14Items returns a copy of the set's elements in insertion order (verification hook, read-only).
+func (s *Set[T]) VerifC14Items() []T {
+	if s == nil {
+		return nil
+	}
+	return append([]T(nil), s.slice...)
+}
+
+// VerifC14ResetGlobals puts the package-level tunables back to their process-start defaults.
+func VerifC14ResetGlobals() {
+	MaxNonce = 3
+	ThresholdA = 2
+	ThresholdB = 3
+	MaxDetID = 5
+	Mode = 1
+}
